@@ -28,6 +28,7 @@ typedef struct
     char d[VSTR_CAP + 1];
 } vstr;
 typedef char vstr_elem_t;
+#define vstr_elem_eq(a, b) ((a) == (b))
 #define VSTR_NPOS ((size_t)-1)
 #define VSTR_INIT(s) {sizeof(s) - 1, s}
 #define vstr_lit(s) ((vstr)VSTR_INIT(s))
@@ -178,6 +179,15 @@ static inline vstr vstr_concat(vstr a, vstr b)
 }
 static inline void vstr_append_s(vstr *a, vstr b) { *a = vstr_concat(*a, b); }
 
+/* key / element equality, by type name */
+static inline bool vstr_keyeq(vstr a, vstr b) { return vstr_eq(a, b); }
+static inline bool int_keyeq(int a, int b) { return a == b; }
+static inline bool size_t_keyeq(size_t a, size_t b) { return a == b; }
+static inline bool ref_keyeq(ref a, ref b) { return a == b; }
+static inline bool char_keyeq(char a, char b) { return a == b; }
+static inline bool bool_keyeq(bool a, bool b) { return a == b; }
+static inline bool double_keyeq(double a, double b) { return a == b; }
+
 /* ---------------------------------------------------------------- iterators ------------- */
 /* (container pointer, position).  *it asserts position < size (dereferencing end() is UB). */
 #define VIT_DECL(NAME, CONT)                                                                  \
@@ -197,6 +207,13 @@ static inline void vstr_append_s(vstr *a, vstr b) { *a = vstr_concat(*a, b); }
         it.i = (size_t)((ptrdiff_t)it.i + k);                                                 \
         return it;                                                                            \
     }                                                                                         \
+    static inline NAME NAME##_find(NAME first, NAME last, CONT##_elem_t x)                    \
+    {                                                                                         \
+        for (; first.i != last.i; ++first.i)                                                  \
+            if (CONT##_elem_eq(CONT##_data(first.v)[first.i], x))                             \
+                return first;                                                                 \
+        return last;                                                                          \
+    }                                                                                         \
     static inline NAME CONT##_begin(const CONT *c) { return (NAME){(CONT *)c, 0}; }           \
     static inline NAME CONT##_end(const CONT *c) { return (NAME){(CONT *)c, CONT##_size(c)}; } \
     static inline NAME CONT##_cbegin(const CONT *c) { return (NAME){(CONT *)c, 0}; }          \
@@ -214,6 +231,7 @@ static inline void vstr_append_s(vstr *a, vstr b) { *a = vstr_concat(*a, b); }
         T d[VVEC_CAP];                                                                        \
     } NAME;                                                                                   \
     typedef T NAME##_elem_t;                                                                  \
+    static inline bool NAME##_elem_eq(T a, T b) { return T##_keyeq(a, b); }                   \
     static inline NAME NAME##_new(void)                                                       \
     {                                                                                         \
         NAME r;                                                                               \
@@ -283,7 +301,9 @@ static inline void vstr_append_s(vstr *a, vstr b) { *a = vstr_concat(*a, b); }
     {                                                                                         \
         A first;                                                                              \
         B second;                                                                             \
-    } NAME;
+    } NAME;                                                                                   \
+    static inline bool NAME##_keyeq(NAME a, NAME b) { return A##_keyeq(a.first, b.first) && B##_keyeq(a.second, b.second); } \
+    static inline bool NAME##_eq(NAME a, NAME b) { return NAME##_keyeq(a, b); }
 
 /* ---------------------------------------------------------------- std::set<T> (scalar T) */
 #define VSET_DECL(NAME, T)                                                                    \
@@ -293,6 +313,7 @@ static inline void vstr_append_s(vstr *a, vstr b) { *a = vstr_concat(*a, b); }
         T d[VSET_CAP];                                                                        \
     } NAME;                                                                                   \
     typedef T NAME##_elem_t;                                                                  \
+    static inline bool NAME##_elem_eq(T a, T b) { return T##_keyeq(a, b); }                   \
     static inline size_t NAME##_size(const NAME *v) { return v->n; }                         \
     static inline T *NAME##_data(NAME *v) { return v->d; }                                   \
     static inline size_t NAME##_find_pos(const NAME *v, T x)                                  \
@@ -317,17 +338,27 @@ static inline void vstr_append_s(vstr *a, vstr b) { *a = vstr_concat(*a, b); }
         PAIR d[VMAP_CAP];                                                                     \
     } NAME;                                                                                   \
     typedef PAIR NAME##_elem_t;                                                               \
+    static inline bool NAME##_elem_eq(PAIR a, PAIR b) { return PAIR##_keyeq(a, b); }          \
     typedef K NAME##_key_t;                                                                   \
     static inline size_t NAME##_size(const NAME *m) { return m->n; }                         \
     static inline PAIR *NAME##_data(NAME *m) { return m->d; }                                \
     static inline size_t NAME##_find_pos(const NAME *m, K k)                                  \
     {                                                                                         \
         for (size_t i = 0; i < m->n; ++i)                                                     \
-            if (KEY_EQ_##K(m->d[i].first, k))                                                 \
+            if (K##_keyeq(m->d[i].first, k))                                                  \
                 return i;                                                                     \
         return m->n;                                                                          \
     }                                                                                         \
     static inline size_t NAME##_count(const NAME *m, K k) { return NAME##_find_pos(m, k) < m->n ? 1 : 0; } \
+    static inline void NAME##_emplace(NAME *m, K k, V v)                                      \
+    {                                                                                         \
+        if (NAME##_find_pos(m, k) < m->n)                                                     \
+            return; /* emplace does not overwrite */                                          \
+        MODEL_BOUND(m->n < VMAP_CAP);                                                         \
+        m->d[m->n].first = k;                                                                 \
+        m->d[m->n].second = v;                                                                \
+        m->n++;                                                                               \
+    }                                                                                         \
     static inline V *NAME##_at(const NAME *m, K k)                                            \
     {                                                                                         \
         size_t i = NAME##_find_pos(m, k);                                                     \
@@ -335,10 +366,19 @@ static inline void vstr_append_s(vstr *a, vstr b) { *a = vstr_concat(*a, b); }
         return (V *)&m->d[i].second;                                                          \
     }
 
-#define KEY_EQ_vstr(a, b) vstr_eq(a, b)
-#define KEY_EQ_int(a, b) ((a) == (b))
-#define KEY_EQ_size_t(a, b) ((a) == (b))
-#define KEY_EQ_ref(a, b) ((a) == (b))
-#define KEY_EQ_char(a, b) ((a) == (b))
+
+/* ---------------------------------------------------------------- object heap ----------- */
+/* data members of *Impl records: one global array per field, indexed by object id          */
+#ifndef HEAP_N
+#define HEAP_N 8
+#endif
+#define HEAP_FIELD(T, NAME) T NAME[HEAP_N];
+/* address of an object (reinterpret_cast<uintptr_t>): arbitrary; the harness states what it
+ * assumes about it (injective, aligned)                                                     */
+extern uintptr_t __addr[HEAP_N];
+#define ADDR_OF(p) (__addr[p])
+/* weak_ptr::lock(): the referent, or null when it has been destroyed */
+extern bool __alive[HEAP_N];
+#define WEAK_LOCK(w) (((w) != 0 && __alive[w]) ? (w) : (ref)0)
 
 #endif
